@@ -4,10 +4,11 @@ import json, os, glob
 ROOT = os.path.dirname(os.path.dirname(os.path.abspath(__file__)))
 base = json.load(open("/root/.vp/BASELINE.json")) if os.path.exists("/root/.vp/BASELINE.json") else {"cmd": ""}
 props = [json.loads(l)["id"] for l in open(os.path.join(ROOT, "properties.jsonl"))]
+ready = set(open(os.path.join(ROOT, "props", "READY")).read().split())
 checks, claimed = [], set()
 for p in sorted(glob.glob(os.path.join(ROOT, "props", "C*.json"))):
     m = json.load(open(p))
-    if m.get("disabled"):
+    if m.get("disabled") or m["id"] not in ready:
         continue
     pid = m["id"]
     claimed.add(pid)
